@@ -443,7 +443,7 @@ def tol(a, b, n=1):
 
 
 def differs(a, b, n=1):
-    return abs(a - b) > tol(a, b, n)
+    return not (abs(a - b) <= tol(a, b, n))  # (nan differs from everything)
 
 
 def _margin(ctx, a, b, n=1):
